@@ -3,6 +3,7 @@ package sym
 import (
 	"bufio"
 	"bytes"
+	"context"
 	"fmt"
 	"os"
 	"os/exec"
@@ -12,6 +13,9 @@ import (
 	"sync"
 	"time"
 )
+
+// SessionReplaySeconds bounds the replay of one logged session on one alternative solver.
+var SessionReplaySeconds = 120
 
 // CrossResult summarises the re-discharge of logged solver sessions by other solvers.
 type CrossResult struct {
@@ -114,7 +118,11 @@ func replaySession(bin, file string, perQueryMs int) (exp, got []string, nerr in
 	if isCvc {
 		args = []string{"--incremental", "--lang=smt2", "--produce-models", fmt.Sprintf("--tlimit-per=%d", perQueryMs)}
 	}
-	cmd := exec.Command(bin, args...)
+	// a whole-session deadline on top of the per-query limit: what the solver has not answered by
+	// then counts as undecided by it
+	ctx, cancel := context.WithTimeout(context.Background(), time.Duration(SessionReplaySeconds)*time.Second)
+	defer cancel()
+	cmd := exec.CommandContext(ctx, bin, args...)
 	cmd.Stdin = &input
 	var ob bytes.Buffer
 	cmd.Stdout = &ob
